@@ -92,6 +92,25 @@ Fixpoint no_del_after_add (cur : list iface) (os : list obs) : bool :=
 Definition order_ok (cur : list iface) (calls : list call) (os : list obs) : bool :=
   negb (no_sel_calls calls) || no_del_after_add cur os.
 
+(* The last word about an address.  Every operation that reports IpDel (an IP check, an enable /
+   disable call) ends by taking up every enabled entry of the OS table of the moment.  So when
+   the last IpAdd / IpDel event of an iteration about an address is IpDel, the OS table of this
+   iteration has no entry with this address that every selection list of the iteration enables:
+   otherwise the daemon holds the address and its services with automatic addressing must keep it. *)
+Fixpoint last_is_del (a : ip) (os : list obs) (acc : bool) : bool :=
+  match os with
+  | [] => acc
+  | OIpAdd x :: t => last_is_del a t (if ip_eqb x a then false else acc)
+  | OIpDel x :: t => last_is_del a t (if ip_eqb x a then true else acc)
+  | _ :: t => last_is_del a t acc
+  end.
+Definition enabled_in_table (cur : list iface) (states : list (list selection)) (a : ip) : bool :=
+  existsb (fun e => ip_eqb (i_ip e) a && forallb (fun sl => last_match sl e) states) cur.
+Definition del_of_held (cur : list iface) (states : list (list selection)) (os : list obs) (a : ip) : bool :=
+  last_is_del a os false && enabled_in_table cur states a.
+Definition last_word_ok (cur : list iface) (states : list (list selection)) (os : list obs) : bool :=
+  forallb (fun o => match o with OIpDel a => negb (del_of_held cur states os a) | _ => true end) os.
+
 (* all iterations of a history: steps with what was observed in them *)
 Fixpoint chk_from (seen cur : list iface) (sels : list selection) (h : list (step * list obs)) : bool :=
   match h with
@@ -100,7 +119,8 @@ Fixpoint chk_from (seen cur : list iface) (sels : list selection) (h : list (ste
     let cur' := match st_os s with Some t => t | None => cur end in
     let seen' := add_seen seen cur' in
     let states := sel_states sels cur' (st_calls s) in
-    forallb (obs_ok seen' cur' states) os && order_ok cur' (st_calls s) os && chk_from seen' cur' (last states sels) rest
+    forallb (obs_ok seen' cur' states) os && order_ok cur' (st_calls s) os && last_word_ok cur' states os
+    && chk_from seen' cur' (last states sels) rest
   end.
 
 Definition chk_C18 (os0 : list iface) (h : list (step * list obs)) : bool := chk_from os0 os0 [] h.
